@@ -84,6 +84,17 @@ def run_group(g, work, spec_checks, rulelog_cls, extra_cbmc=None):
         b = g.build(gw, rl)
         res['rules'] = rl.as_dict()
         res['dropped'] = b.get('dropped', [])
+        if b.get('precomputed') is not None:
+            # a supporting static fact (no verifier run): one obligation per examined item
+            obl = [{'name': o['name'], 'class': 'static_fact', 'status': o['status'], 'description': o['description'], 'file': o.get('file', ''),
+                    'line': 0, 'function': '', 'tags': None, 'clause': o['description'], 'trace': None} for o in b['precomputed']]
+            if len(obl) < b.get('min_obligations', 1):
+                raise C.Undecided(f'only {len(obl)} items examined, expected at least {b.get("min_obligations", 1)}')
+            res['obligations'] = obl
+            res['cmd'] = b.get('cmd', '')
+            res['status'] = 'failed' if any(o['status'] == 'FAILURE' for o in obl) else 'ok'
+            res['seconds'] = time.time() - t0
+            return res
         objs = []
         cdefs = list(b.get('cdefs', []))
         if not spec_checks:
@@ -101,11 +112,18 @@ def run_group(g, work, spec_checks, rulelog_cls, extra_cbmc=None):
         C.link(objs, b['entry'], gb, log)
         loops_file = None
         loops_waived = False
+        fallback_unwind = None
         if b.get('loops_tpl'):
             loops_file = os.path.join(gw, 'loops.json')
-            if loop_fill(b['loops_tpl'], gb, loops_file, incdirs=[gw, CONTRACTS]) == 0:
-                loops_file = None  # the function has become loop free: its contract is enforced without loop contracts
+            fb = []
+            if loop_fill(b['loops_tpl'], gb, loops_file, incdirs=[gw, CONTRACTS], fallbacks=fb) == 0:
+                loops_file = None  # the function has become loop free / its loop changed shape: no loop contract applies
                 loops_waived = True
+            if fb:
+                # a loop whose shape no longer matches its loop contract (iterator locals gone): the function contract is
+                # checked with the loop unwound instead - BOUNDED (paths beyond the bound are cut), refutations stay valid
+                res['bounded'] = (res['bounded'] + '; ' if res['bounded'] else '') + f'loop contract not applicable to the changed loop: --unwind {max(fb)} without unwinding assertions'
+                fallback_unwind = max(fb)
         gi = os.path.join(gw, 'gi.gb')
         if b.get('enforce') or b.get('replace'):
             C.instrument(gb, gi, b['entry'], b.get('enforce', []), b.get('replace', []), loops_file, log)
@@ -114,7 +132,10 @@ def run_group(g, work, spec_checks, rulelog_cls, extra_cbmc=None):
         extra = list(b.get('cbmc_extra', [])) + list(extra_cbmc or [])
         if spec_checks and b.get('cbmc_flags') is None:
             extra += ['--pointer-overflow-check']
-        r = C.cbmc(gi, log, g.timeout, extra=extra, flags=b.get('cbmc_flags'))
+        flags = b.get('cbmc_flags')
+        if fallback_unwind:
+            flags = [f for f in (flags if flags is not None else C.CBMC_FLAGS) if f != '--unwinding-assertions'] + ['--unwind', str(fallback_unwind), '--no-unwinding-assertions']
+        r = C.cbmc(gi, log, g.timeout, extra=extra, flags=flags)
         res['cmd'] = r['cmd'].replace(gw, '<work>')
         res['solver_seconds'] = r['solver_seconds']
         obl = []
@@ -171,7 +192,7 @@ def attributed(o, group_props, pid):
     if pid == 'C18':
         # no hidden shared state: only the frame obligations (every write stays inside the assigns clause, which names
         # object state reached through the arguments and verification ghosts, never static storage of the library)
-        return o['class'] == 'assigns' and pid in group_props
+        return o['class'] in ('assigns', 'static_fact') and pid in group_props
     if o['tags'] is not None:
         return pid in o['tags']
     return pid in group_props
